@@ -3,7 +3,7 @@
     source on every run (Gen_Conc, clang AST).  General theorems: Conc/Fork.v. *)
 From Coq Require Import String List Bool.
 From Snoopy Require Import Conc.Tsrm Conc.LockSkel Conc.TsrmProofs Conc.Fork.
-From Gen Require Import Gen_Conc.
+From Gen Require Import Gen_Conc Gen_Globals.
 Import ListNotations.
 Local Open Scope list_scope.
 
@@ -22,6 +22,19 @@ Lemma handlers_are_repaired : handlers_ok HS = true.
 Proof. vm_compute. reflexivity. Qed.
 Lemma parent_side_ok : parent_ok HS = true.
 Proof. vm_compute. reflexivity. Qed.
+
+(** EVERY lock of the thread-safe library and its entry point is the repository mutex of the model: the objects with static storage
+    whose type is a pthread mutex / rwlock / spinlock / condition / barrier / semaphore are exactly the mutex the prepare handler locks,
+    the parent handler unlocks and the child handler re-initialises, and no function outside the pinned functions of tsrm.c calls a
+    locking primitive of any kind (pthread, semaphore, flock/lockf, stdio locks).  So the theorems below, stated for the model's one
+    mutex, speak about all locks a forked child can inherit in the locked state. *)
+Lemma all_locks_covered_ok : all_locks_covered tsrm_fns globals = true.
+Proof. vm_compute. reflexivity. Qed.
+Lemma locking_confined_ok : locking_confined tsrm_fns constructors fn_refs = true.
+Proof. vm_compute. reflexivity. Qed.
+Theorem C10_all_locks_covered : forall g, In g globals -> is_lock_object g = true ->
+  g_name g = "snoopy_tsrm_threadRepo_mutex"%string /\ covered_locks tsrm_fns = ["snoopy_tsrm_threadRepo_mutex"%string].
+Proof. exact (all_locks_covered_spec tsrm_fns globals all_locks_covered_ok). Qed.
 
 (** the one-time initialisation (mutex, registration of the fork handlers) runs when the library is loaded, from a
     function carrying __attribute__((constructor)) whose whole body is the constructor's pthread_once call: the handlers
@@ -90,6 +103,7 @@ Proof.
   - vm_compute. repeat split.
 Qed.
 
+Print Assumptions C10_all_locks_covered.
 Print Assumptions C10_child_completes.
 Print Assumptions C10_registered.
 Print Assumptions C10_parent_unaffected.
